@@ -204,6 +204,8 @@ pub struct Flags {
 #[derive(Debug, Clone, Default)]
 pub struct Progress {
     pub started: bool,
+    /// kernel thread id of the case thread (0 = unknown)
+    pub tid: i32,
     pub step: usize,
     pub what: &'static str,
     pub detail: String,
@@ -1083,6 +1085,8 @@ impl<'a> Interp<'a> {
     pub fn run(mut self) -> Verdict {
         if let Ok(mut p) = self.progress.lock() {
             p.started = true;
+            // SAFETY: gettid has no preconditions.
+            p.tid = unsafe { libc::gettid() };
         }
         let ops = &self.case.ops;
         let mut failure: Option<Fail> = None;
